@@ -69,7 +69,7 @@ Theorem C13_clear_resets : forall fx g h ob, handle g h = Some ob -> has_ir g ob
 Proof. exact clear_resets. Qed.
 Print Assumptions C13_clear_resets.
 
-(* before the fix (proposed_fix_C13_clear.diff): circuit.clear() on a circuit without IR raises and resets nothing *)
+(* NOTE, before the fix D78 (fixes/fix_D78.diff, in /repo since 5e21e90): circuit.clear() on a circuit without IR raised and reset nothing *)
 Theorem C13_clear_without_ir_before_fix : forall g h, (forall ob, handle g h = Some ob -> has_ir g ob = false) ->
   step_with false g (MClear h) = (g, OErr "AttributeError").
 Proof. exact clear_without_ir_before_fix. Qed.
@@ -85,19 +85,19 @@ Theorem C13_uclear_resets : forall fx g h ob, handle g h = Some ob -> has_ir g o
 Proof. exact uclear_resets. Qed.
 Print Assumptions C13_uclear_resets.
 
-(* before the fix: pyrates.clear(c) on a circuit without IR is only clear_frontend_caches() *)
+(* NOTE, before D78: pyrates.clear(c) on a circuit without IR was only clear_frontend_caches() *)
 Theorem C13_uclear_without_ir_before_fix : forall g h, (forall ob, handle g h = Some ob -> has_ir g ob = false) ->
   fst (step_with false g (UClear h)) = cfc_with false true true g.
 Proof. exact uclear_without_ir_before_fix. Qed.
 Print Assumptions C13_uclear_without_ir_before_fix.
 
-(* with the fix: pyrates.clear(c) resets every frontend cache whatever the circuit holds *)
+(* since D78 (the code as it is now, fixed_clear = true): pyrates.clear(c) resets every frontend cache whatever the circuit holds *)
 Theorem C13_uclear_fixed : forall g h,
   frontend_clean (fst (step_with true g (UClear h))) = true /\ template_cache (fst (step_with true g (UClear h))) = None.
 Proof. exact uclear_fixed. Qed.
 Print Assumptions C13_uclear_fixed.
 
-(* before the fix (fx = false) clear_frontend_caches leaves in_edge_indices, in_edge_vars, input_labels whatever the flags *)
+(* before D78 (fx = false) clear_frontend_caches left in_edge_indices, in_edge_vars, input_labels whatever the flags; now (fx = true) ic resets them *)
 Theorem C13_cfc_resets_only : forall fx g tc ic,
   proj (fst (step_with fx g (CFC tc ic))) =
   {| p_opc := if ic then [] else op_cache g; p_nodec := if ic then [] else node_cache g;
@@ -169,7 +169,7 @@ Proof.
 Qed.
 Print Assumptions C13_refuted_label_leak.
 
-(* in_edge_indices: clear_frontend_caches() alone leaves it; the in-edge operator is then called in_edge_1 *)
+(* NOTE, before D78: clear_frontend_caches() alone left in_edge_indices (in-edge operator called in_edge_1); the same history is clean now *)
 Theorem C13_refuted_cfc_leaves_in_edge_indices_before_fix : exists h m, caches_clean (run_hist_with false h G0) = false /\
   obs_of (run_hist_with false h G0) m false <> obs_of G0 m false /\ frontend_clean (run_hist_with true h G0) = true.
 Proof.
@@ -178,7 +178,7 @@ Proof.
 Qed.
 Print Assumptions C13_refuted_cfc_leaves_in_edge_indices_before_fix.
 
-(* pyrates.clear(circuit) on a circuit that holds no IR (here: compiled with clear=True) is only clear_frontend_caches() *)
+(* NOTE, before D78: pyrates.clear(circuit) on a circuit that holds no IR (here: compiled with clear=True) was only clear_frontend_caches() *)
 Theorem C13_refuted_uclear_without_ir_before_fix : exists h m,
   obs_of (run_hist_with false h G0) m false <> obs_of G0 m false /\ frontend_clean (run_hist_with true h G0) = true.
 Proof.
